@@ -6,6 +6,7 @@ package main
 import (
 	"fmt"
 	"regexp"
+	"sort"
 	"strings"
 )
 
@@ -136,6 +137,7 @@ func c07Graphs(thorough bool) []c07Graph {
 }
 
 var c07MarkRe = regexp.MustCompile(`data-m="([^"]+)"`)
+var c07LayoutRe = regexp.MustCompile(`(?m)^layout: (\S+)$`)
 
 func c07Eval(g c07Graph) *Case {
 	page := g.page
@@ -147,7 +149,31 @@ func c07Eval(g c07Graph) *Case {
 		data = map[string]any{"fromfill": "FF"}
 	}
 	res := renderPage(g.files, page, data)
-	c := &Case{Name: g.desc, Input: map[string]any{"desc": g.desc}, Impl: res.canon(), Key: g.desc, Oracle: &Verdict{OK: true}, Tags: []string{"graph"}}
+	// model input: every file with the layout key of its front-matter; the engine is abstracted to "wrap in the file's own marker"
+	var fl []any
+	marker := map[string]string{}
+	for n, src := range g.files {
+		l := ""
+		if m := c07LayoutRe.FindStringSubmatch(src); m != nil {
+			l = m[1]
+		}
+		fl = append(fl, []any{n, l})
+		if m := c07MarkRe.FindStringSubmatch(src); m != nil {
+			marker[m[1]] = n
+		}
+	}
+	sort.Slice(fl, func(i, j int) bool { return fl[i].([]any)[0].(string) < fl[j].([]any)[0].(string) })
+	var impl map[string]any
+	if res.Err != "" || res.Panic != "" || res.Timeout {
+		impl = map[string]any{"err": true}
+	} else {
+		names := []any{}
+		for _, m := range c07MarkRe.FindAllStringSubmatch(res.Out, -1) {
+			names = append(names, marker[m[1]])
+		}
+		impl = map[string]any{"ok": names}
+	}
+	c := &Case{Name: g.desc, Op: true, Input: map[string]any{"op": "layout", "desc": g.desc, "files": fl, "page": page}, Impl: impl, Key: g.desc, Oracle: &Verdict{OK: true}, Tags: []string{"graph"}}
 	cls := strings.SplitN(g.desc, " ", 2)[0]
 	switch {
 	case res.Timeout:
